@@ -41,6 +41,7 @@ theorem receiveData_dup (c : RChunk) (e : Ep) (l : List Out) (rx : Rx) (hrx : e.
 
 theorem receiveData_fresh (c : RChunk) (e : Ep) (l : List Out) (rx : Rx) (s1 s2 : InStream) (msgs : List Msg)
     (hrx : e.rx = some rx) (hdup : (markReceived rx c.tsn).1 = false)
+    (hnd : (((dictGet e.inStreams c.sid).getD {}).reasm.any fun r => r.tsn == c.tsn) = false)
     (hadd : ((dictGet e.inStreams c.sid).getD {}).addChunk c = .ok s1)
     (hpop : s1.popMessages = .ok (msgs, s2)) :
     ∃ e', (receiveData c).run.run (e, l) = (deliver msgs).run.run (e', l)
@@ -52,10 +53,10 @@ theorem receiveData_fresh (c : RChunk) (e : Ep) (l : List Out) (rx : Rx) (s1 s2 
     hdup, Bool.false_eq_true, if_false, getInStream, setInStream]
   cases hget : dictGet e.inStreams c.sid with
   | some s =>
-    rw [hget] at hadd
-    simp only [Option.getD_some] at hadd
+    rw [hget] at hadd hnd
+    simp only [Option.getD_some] at hadd hnd
     try dsimp only
-    simp only [hadd, bind, ExceptT.bind, ExceptT.mk, ExceptT.run, ExceptT.bindCont, StateT.bind, StateT.run, modE, modify, modifyGet, MonadStateOf.modifyGet, StateT.modifyGet, pure, ExceptT.pure, StateT.pure, Functor.map, StateT.map, liftO]
+    simp only [hnd, Bool.false_eq_true, if_false, hadd, bind, ExceptT.bind, ExceptT.mk, ExceptT.run, ExceptT.bindCont, StateT.bind, StateT.run, modE, modify, modifyGet, MonadStateOf.modifyGet, StateT.modifyGet, pure, ExceptT.pure, StateT.pure, Functor.map, StateT.map, liftO]
     try dsimp only
     simp only [hpop, bind, ExceptT.bind, ExceptT.mk, ExceptT.run, ExceptT.bindCont, StateT.bind, StateT.run, modE, modify, modifyGet, MonadStateOf.modifyGet, StateT.modifyGet, pure, ExceptT.pure, StateT.pure, Functor.map, StateT.map, liftO]
     try dsimp only
@@ -63,15 +64,32 @@ theorem receiveData_fresh (c : RChunk) (e : Ep) (l : List Out) (rx : Rx) (s1 s2 
   | none =>
     rw [hget] at hadd
     simp only [Option.getD_none] at hadd
+    have hnil : ((({} : InStream).reasm).any fun r => r.tsn == c.tsn) = false := rfl
     try dsimp only
-    try simp only [bind, ExceptT.bind, ExceptT.mk, ExceptT.run, ExceptT.bindCont, StateT.bind, StateT.run, modE, modify, modifyGet, MonadStateOf.modifyGet, StateT.modifyGet, pure, ExceptT.pure, StateT.pure, Functor.map, StateT.map, liftO]
+    try simp only [hnil, Bool.false_eq_true, if_false, bind, ExceptT.bind, ExceptT.mk, ExceptT.run, ExceptT.bindCont, StateT.bind, StateT.run, modE, modify, modifyGet, MonadStateOf.modifyGet, StateT.modifyGet, pure, ExceptT.pure, StateT.pure, Functor.map, StateT.map, liftO]
     try dsimp only
-    simp only [hadd, bind, ExceptT.bind, ExceptT.mk, ExceptT.run, ExceptT.bindCont, StateT.bind, StateT.run, modE, modify, modifyGet, MonadStateOf.modifyGet, StateT.modifyGet, pure, ExceptT.pure, StateT.pure, Functor.map, StateT.map, liftO]
+    try simp only [hnil, Bool.false_eq_true, if_false, hadd, bind, ExceptT.bind, ExceptT.mk, ExceptT.run, ExceptT.bindCont, StateT.bind, StateT.run, modE, modify, modifyGet, MonadStateOf.modifyGet, StateT.modifyGet, pure, ExceptT.pure, StateT.pure, Functor.map, StateT.map, liftO]
     try dsimp only
-    simp only [hpop, bind, ExceptT.bind, ExceptT.mk, ExceptT.run, ExceptT.bindCont, StateT.bind, StateT.run, modE, modify, modifyGet, MonadStateOf.modifyGet, StateT.modifyGet, pure, ExceptT.pure, StateT.pure, Functor.map, StateT.map, liftO]
+    try simp only [hnil, Bool.false_eq_true, if_false, hpop, bind, ExceptT.bind, ExceptT.mk, ExceptT.run, ExceptT.bindCont, StateT.bind, StateT.run, modE, modify, modifyGet, MonadStateOf.modifyGet, StateT.modifyGet, pure, ExceptT.pure, StateT.pure, Functor.map, StateT.map, liftO]
     try dsimp only
     refine ⟨_, rfl, rfl, ?_⟩
     exact dictSet_append_absent _ _ _ _ hget
+
+theorem receiveData_waiting (c : RChunk) (e : Ep) (l : List Out) (rx : Rx) (hrx : e.rx = some rx)
+    (hdup : (markReceived rx c.tsn).1 = false)
+    (hg : (((dictGet e.inStreams c.sid).getD {}).reasm.any fun r => r.tsn == c.tsn) = true) :
+    (receiveData c).run.run (e, l)
+      = (.ok (), ({ e with sackNeeded := true, rx := some (markReceived rx c.tsn).2 }, l)) := by
+  unfold receiveData
+  cases hget : dictGet e.inStreams c.sid with
+  | none => rw [hget] at hg; simp at hg
+  | some s =>
+    rw [hget] at hg
+    simp only [Option.getD_some] at hg
+    simp only [bind, ExceptT.bind, ExceptT.mk, ExceptT.run, ExceptT.bindCont, StateT.bind, StateT.run, modE, getE, setE,
+      modify, modifyGet, MonadStateOf.modifyGet, StateT.modifyGet, pure, ExceptT.pure, StateT.pure, get, getThe,
+      MonadStateOf.get, StateT.get, liftM, monadLift, MonadLift.monadLift, ExceptT.lift, Functor.map, StateT.map, hrx,
+      hdup, Bool.false_eq_true, if_false, getInStream, hget, hg, if_true]
 
 theorem deliver_nil (e : Ep) (l : List Out) : (deliver []).run.run (e, l) = (.ok (), (e, l)) := rfl
 
@@ -96,6 +114,17 @@ theorem receiveData_refines (c : RChunk) (e : Ep) (l : List Out) (rx : Rx) (r' :
       rw [deliver_nil]; exact this
     | false =>
       simp only [Bool.false_eq_true, if_false] at hstep
+      by_cases hnd : (((dictGet e.inStreams c.sid).getD {}).reasm.any fun r => r.tsn == c.tsn) = true
+      · rw [if_pos hnd] at hstep
+        simp only [Outcome.ok.injEq, Prod.mk.injEq] at hstep
+        obtain ⟨rfl, rfl⟩ := hstep
+        have := receiveData_waiting c e l rx hrx (by rw [hm]) hnd
+        rw [hm] at this
+        refine ⟨{ e with sackNeeded := true, rx := some rx' }, ?_, rfl, rfl⟩
+        rw [deliver_nil]; exact this
+      rw [if_neg hnd] at hstep
+      have hnd : (((dictGet e.inStreams c.sid).getD {}).reasm.any fun r => r.tsn == c.tsn) = false := by
+        simpa using hnd
       cases hadd : ((dictGet e.inStreams c.sid).getD {}).addChunk c with
       | ok s1 =>
         rw [hadd] at hstep
@@ -106,7 +135,7 @@ theorem receiveData_refines (c : RChunk) (e : Ep) (l : List Out) (rx : Rx) (r' :
           rw [hpop] at hstep
           simp only [Outcome.ok.injEq, Prod.mk.injEq] at hstep
           obtain ⟨rfl, rfl⟩ := hstep
-          obtain ⟨e', h1, h2, h3⟩ := receiveData_fresh c e l rx s1 s2 ms' hrx (by rw [hm]) hadd hpop
+          obtain ⟨e', h1, h2, h3⟩ := receiveData_fresh c e l rx s1 s2 ms' hrx (by rw [hm]) hnd hadd hpop
           exact ⟨e', h1, by rw [h2, hm], h3⟩
         | valueError => rw [hpop] at hstep; cases hstep
         | crash k => rw [hpop] at hstep; cases hstep
